@@ -606,7 +606,7 @@ func streamMutations(sink *Sink, rng *rand.Rand, tier string, scratch string) {
 	start := time.Now()
 	rounds := 6
 	if tier == "thorough" {
-		rounds = 60
+		rounds = 16
 	}
 	for r := 0; r < rounds; r++ {
 		fees := []uint{0, 100, 1000}
@@ -659,7 +659,7 @@ func streamMutations(sink *Sink, rng *rand.Rand, tier string, scratch string) {
 		h.fundAmount(63)
 		sp := h.spendable()
 		for n, s := range sp {
-			if n >= 4 && tier == "quick" {
+			if (n >= 4 && tier != "thorough") || n >= 8 {
 				break
 			}
 			base := h.honest(s)
